@@ -121,7 +121,7 @@ def harnesses(tier):
 ORACLES = [
     {'name': 'descriptions built from a token set (store numbers, state suffixes, processor prefixes, regex metacharacters, quotes, backslashes, non-ASCII case mappings): '
              'the suggested rule must load and match its description; discover -> append suggestions -> discover must empty the Unknown list', 'script': 'C19.py',
-     'bound': 'all ordered selections of <= 2 tokens (x 7 prefixes x 2 separators), 1/11 of the 3-token ones (quick) / half of them and 1/97 of 4-token ones (thorough), from 38 tokens'},
+     'bound': 'all ordered selections of <= 2 tokens (x 7 prefixes x 2 separators), 1/11 of the 3-token ones (quick) / half of them and 1/97 of 4-token ones (thorough), from 38 tokens; the discover-append-discover loop without and with 2 sets of field transforms'},
 ]
 TRUSTED_BASE = ['pyvc symbolic executor', 'z3 5.1.0 / cvc5 1.0.3', 'str.replace uninterpreted',
                 'regular-expression semantics of suggest_pattern and the Python string-literal tokenizer are NOT modelled: the matching direction is bounded-only']
